@@ -340,15 +340,23 @@ func runProperty(o *Options, pc *PropertyConfig) int {
 		// the accepted baseline: a lost proof is reported as a violation, so a timeout on a loaded machine
 		// must be ruled out first
 		base3 := loadBaseline(o.Verif, o.Property)
+		var last []int
 		for i, j := range again {
 			st := j.ob.Result.Status
 			if st == "unsat" || st == "sat" {
 				continue
 			}
-			nm := j.ob.Name
-			if base3.Obligations[nm] != "discharged" {
-				continue
+			if base3.Obligations[j.ob.Name] == "discharged" {
+				last = append(last, i)
 			}
+		}
+		// only a handful of stragglers can be a load artefact; many undecided baseline obligations mean the
+		// code changed, and re-running them all serially would make a failing check take hours
+		if len(last) > 4 {
+			last = nil
+		}
+		for _, i := range last {
+			j := again[i]
 			r := solve(smtDir, fmt.Sprintf("last_%04d", i), j.ob.Query, nil, timeoutMs*16, false)
 			if r.Status == "unsat" || r.Status == "sat" {
 				r.Solver += "(third-chance)"
